@@ -16,7 +16,8 @@
 import EasyMl.Model.Fallible
 import EasyMl.Model.Matrix
 
-namespace EasyMl
+namespace EasyMl.MatrixView
+open EasyMl.Fallible
 
 structure MView where
   rows : Nat
@@ -44,6 +45,19 @@ def MatrixMeta.get (m : MatrixMeta) (row column : Nat) : Outcome (Option Nat) :=
 
 def MView.ofMatrix (m : MatrixMeta) : MView := ⟨m.rows, m.columns, m.get⟩
 
+/-- the shape shared by the checked getters of `MatrixRange` and `MatrixReverse`: map the row
+    (`?`), map the column (`?`), then ask the source -/
+def MView.getVia (src : MView) (f g : Nat → Outcome (Option Nat)) (row column : Nat) :
+    Outcome (Option Nat) :=
+  match f row with
+  | .panic k => .panic k
+  | .ok none => .ok none
+  | .ok (some r) =>
+    match g column with
+    | .panic k => .panic k
+    | .ok none => .ok none
+    | .ok (some c) => src.get r c
+
 /-- `MatrixRange::from` (src/matrices/views/ranges.rs:68-88): both ranges are clipped to the
     source's size; the getter maps both coordinates (`IndexRange::map`). -/
 def MView.range (A : Arith) (src : MView) (rows columns : IndexRange) : Outcome MView :=
@@ -55,15 +69,7 @@ def MView.range (A : Arith) (src : MView) (rows columns : IndexRange) : Outcome 
     | .ok cs =>
       .ok { rows := rs.length
             columns := cs.length
-            get := fun row column =>
-              match rs.map row with
-              | .panic k => .panic k
-              | .ok none => .ok none
-              | .ok (some r) =>
-                match cs.map column with
-                | .panic k => .panic k
-                | .ok none => .ok none
-                | .ok (some c) => src.get r c }
+            get := src.getVia rs.map cs.map }
 
 /-- `MatrixReverse` (src/matrices/views/reverse.rs:123-139): the empty-view guard, then
     `reverse_indexes` (pinned) / `try_reverse_indexes(..)?` (repaired) on `[row, column]`. -/
@@ -73,14 +79,8 @@ def MView.reverse (A : Arith) (src : MView) (rows columns : Bool) : MView where
   get := fun row column =>
     if src.rows = 0 ∨ src.columns = 0 then .ok none
     else
-      match (if rows then A.reverseChecked src.rows row else .ok (some row)) with
-      | .panic k => .panic k
-      | .ok none => .ok none
-      | .ok (some r) =>
-        match (if columns then A.reverseChecked src.columns column else .ok (some column)) with
-        | .panic k => .panic k
-        | .ok none => .ok none
-        | .ok (some c) => src.get r c
+      src.getVia (if rows then A.reverseChecked src.rows else fun i => .ok (some i))
+        (if columns then A.reverseChecked src.columns else fun i => .ok (some i)) row column
 
 /-- `MatrixMap` (src/matrices/views/map.rs): same cells, the element is passed through `f`
     (which cell is addressed is all the model keeps). -/
@@ -244,4 +244,4 @@ def partitionQuadrants (m : MatrixMeta) (row column : Nat) :
   | .ok [a, b, c, d] => .ok (a, b, c, d)
   | .ok _ => .panic .unwrap
 
-end EasyMl
+end EasyMl.MatrixView
